@@ -5,13 +5,14 @@
 (* allows (RFC 3501 latitude included) in the state reached so far, and    *)
 (* the probes taken after the step (LIST "" *, LSUB "" *, STATUS of every  *)
 (* name of interest) are answers allowed in the state after it.            *)
-(* One run judges the executions of ONE store (CONSTANT Store; Dev = the   *)
-(* deviations known for that store).                                       *)
+(* The store of an execution is the field `be` of its events; Dev is, as   *)
+(* in Namespace.tla, the deviations known for that store (AllOpen = all).  *)
 (* Outcomes of named deviations (Dev) are accepted too but recorded in     *)
 (* `used`; the smallest `used` over all accepting runs is reported, the    *)
 (* check turns each name in it into a known-finding signature.             *)
 (*                                                                         *)
-(* Event (JSON): op, a, b (names / reference+pattern as arrays of tokens), *)
+(* Event (JSON): be ("dict" | "pp" | "fs"),                                *)
+(*   op, a, b (names / reference+pattern as arrays of tokens),             *)
 (*   ok (tagged OK), bad (anything but OK/NO), bye (no tagged answer but    *)
 (*   "* BYE" and the connection closed: only a deviation answers so),      *)
 (*   n (messages, STATUS/SELECT),                                          *)
@@ -26,7 +27,7 @@ N == Len(Traces)
 ASSUME \A k \in 1..N : TLCSet(k, 0) /\ TLCSet(N + k, {"-none-"})
 
 VARIABLES tid, l, used
-tvars == <<mbx, sub, last, probe, tid, l, used>>
+tvars == <<mbx, sub, last, probe, store, tid, l, used>>
 
 Ev == Traces[tid][l]
 ToSet(s) == {s[k] : k \in 1..Len(s)}
@@ -68,22 +69,46 @@ NoProbe == {[dev |-> {}]}
 TInit == /\ tid \in 1..N
          /\ l = 1
          /\ used = {}
+         /\ store = Traces[tid][1].be
          /\ mbx = [n \in {Inbox} |-> 0]
          /\ sub = {}
          /\ last = Null
          /\ probe = <<>>
 
+\* the explanations of an event: the state after it and the deviations needed
+Cands(ev) ==
+  UNION {LET vls == IF ev.hp
+                    THEN {v \in ListVariants(o.m, o.s, FALSE, <<>>, <<"*">>) : EntsOK(v, ev.pl)}
+                    ELSE NoProbe
+             vss == IF ev.hp
+                    THEN {v \in ListVariants(o.m, o.s, TRUE, <<>>, <<"*">>) : EntsOK(v, ev.ps)}
+                    ELSE NoProbe
+         IN {[m |-> o.m, s |-> o.s, ok |-> o.r.ok, d |-> o.r.dev \cup vl.dev \cup vs.dev]
+             : vl \in vls, vs \in vss}
+         : o \in {p \in Outs(ev) : ObsOK(p.r, ev) /\ (ev.hp => StatusOK(p.m, ev))}}
+\* an explanation that needs more deviations than another one with the same
+\* state after it cannot lead to a smaller `used`: not followed
+Minimal(C) == {c \in C : ~\E e \in C : e.m = c.m /\ e.s = c.s /\ e.d \subseteq c.d /\ e.d # c.d}
+
+\* It is ONE server that is observed: it either writes a subscribed name with
+\* a line break as it is (and reads back the pieces) or it does not.  Without
+\* this, a set-up of k such SUBSCRIBEs (no probes in between) has 2^k
+\* explanations.  NoSplit in `used` marks the second kind (never reported).
+NoSplit == "-keeps-line-breaks-"
+NLSub(ev, c) == /\ ev.op = "subscribe" /\ c.ok /\ "n" \in ToSet(ev.a)
+                /\ Maildir /\ NLSplit \in Dev
+OneServer(ev, c) ==
+  /\ NoSplit \in used => NLSplit \notin c.d
+  /\ (NLSplit \in used /\ NLSub(ev, c)) => NLSplit \in c.d
+
 TNext ==
   /\ l <= Len(Traces[tid])
-  /\ \E o \in Outs(Ev) :
-       /\ ObsOK(o.r, Ev)
-       /\ \E vl \in (IF Ev.hp THEN ListVariants(o.m, o.s, FALSE, <<>>, <<"*">>) ELSE NoProbe),
-             vs \in (IF Ev.hp THEN ListVariants(o.m, o.s, TRUE, <<>>, <<"*">>) ELSE NoProbe) :
-            /\ Ev.hp => EntsOK(vl, Ev.pl) /\ EntsOK(vs, Ev.ps) /\ StatusOK(o.m, Ev)
-            /\ used' = used \cup o.r.dev \cup vl.dev \cup vs.dev
-       /\ mbx' = o.m /\ sub' = o.s
+  /\ \E c \in {x \in Minimal(Cands(Ev)) : OneServer(Ev, x)} :
+       /\ used' = used \cup c.d
+                  \cup (IF NLSub(Ev, c) /\ NLSplit \notin c.d THEN {NoSplit} ELSE {})
+       /\ mbx' = c.m /\ sub' = c.s
   /\ l' = l + 1 /\ tid' = tid
-  /\ UNCHANGED <<last, probe>>
+  /\ UNCHANGED <<last, probe, store>>
 
 TSpec == TInit /\ [][TNext]_tvars
 
@@ -93,8 +118,8 @@ Record ==
   /\ TLCSet(tid, IF TLCGet(tid) > l - 1 THEN TLCGet(tid) ELSE l - 1)
   /\ (l = Len(Traces[tid]) + 1) =>
         TLCSet(N + tid, IF TLCGet(N + tid) = {"-none-"}
-                           \/ Cardinality(used) < Cardinality(TLCGet(N + tid))
-                        THEN used ELSE TLCGet(N + tid))
+                           \/ Cardinality(used \ {NoSplit}) < Cardinality(TLCGet(N + tid))
+                        THEN used \ {NoSplit} ELSE TLCGet(N + tid))
 
 Post == \A k \in 1..N : /\ PrintT(<<"VERDICT", k, TLCGet(k), Len(Traces[k])>>)
                         /\ PrintT(<<"USED", k, TLCGet(N + k)>>)
